@@ -96,3 +96,14 @@ Definition cumulative_table (cart : Z) (counts : list Z) : list cumrow :=
 Definition cumulative_comparisons {rec} (adm : rec -> rec -> bool) (rules : list (rec -> rec -> tv))
            (cart : Z) (L R : list rec) : list cumrow :=
   cumulative_table cart (row_counts (length rules) (block adm rules L R)).
+
+(* cumulative_comparisons_to_be_scored_from_blocking_rules_data, top level: the cartesian column is
+   calculate_cartesian of the per-table row counts ([None]: the ValueError of calculate_cartesian).
+   NOT modelled: max_rows_limit (the function raises when a rule's pre-filter count exceeds it; the
+   model describes the calls in which the limit is not hit) and the chart built from the table. *)
+Definition cumulative_comparisons_data {rec} (lt : clink) (sizes : list Z) (adm : rec -> rec -> bool)
+           (rules : list (rec -> rec -> tv)) (L R : list rec) : option (list cumrow) :=
+  match cartesian lt sizes with
+  | Some cart => Some (cumulative_comparisons adm rules cart L R)
+  | None => None
+  end.
